@@ -78,4 +78,6 @@ void verif_in_arr(const char *name, void *p, size_t elsz, size_t n);
 
 #endif
 
+#include "contracts/loops.h"
+
 #endif
